@@ -5,7 +5,7 @@
 (* FALSE on the event; EventDrift(ev, pre) the L2 (implementation-shaped)   *)
 (* disagreements.                                                           *)
 (***************************************************************************)
-EXTENDS LocalOps
+EXTENDS FermiImpl
 
 Has(r, f) == f \in DOMAIN r
 Labels(x) == IF IsFermi(x) THEN x.oddpos ELSE <<>>
@@ -949,6 +949,77 @@ ModeCtxEv(ev) ==
      ELSE F(m.after = m.before, "C15.mode_context.restored")
           \cup F(m.inside = want, "C15.mode_context.inside")
 
+
+---------------------------------------------------------------------------
+\* L2: the implementation-shaped prediction of the result (Impl / FermiImpl) against the logged one.
+\* A disagreement with passing L1 clauses is SPEC DRIFT (reported, never an alarm).
+CoreBlocks(x) == [i \in 1..Len(x.blocks) |-> [s |-> x.blocks[i].s, shape |-> x.blocks[i].shape, data |-> x.blocks[i].data]]
+NegPhases(x) == IF IsFermi(x) THEN {x.phases[i].s : i \in {j \in 1..Len(x.phases) : x.phases[j].p = -1}} ELSE {}
+L2Eq(x, y) ==
+  /\ x.ix = y.ix /\ x.charge = y.charge /\ x.sym = y.sym /\ x.kind = y.kind
+  /\ CoreBlocks(x) = CoreBlocks(y)
+  /\ NegPhases(x) = NegPhases(y) /\ Labels(x) = Labels(y)
+PermArg(a, n) == IF Flag(a, "axes_none") THEN Reversal(n) ELSE [i \in 1..Len(a.axes) |-> a.axes[i] + 1]
+ResolveMode(a, ncon) ==
+  LET m == IF Has(a, "mode") /\ a.mode \notin {"default"} THEN a.mode ELSE "auto"
+  IN IF m = "auto" THEN (IF ncon = 0 THEN "blockwise" ELSE "fused") ELSE m
+\* <<known, value>>
+ImplOf(ev, pre) ==
+  LET x == Ins(ev, pre, 1)
+      a == ev.args
+      n == Rank(x)
+      none == <<FALSE, x>>
+  IN IF ~IsArray(x) \/ ~AllExact(x) THEN none
+     ELSE IF ~IsFermi(x) THEN
+       CASE ev.op = "transpose" -> <<TRUE, ITranspose(x, PermArg(a, n))>>
+         [] ev.op = "T" -> <<TRUE, ITranspose(x, Reversal(n))>>
+         [] ev.op = "conj" -> <<TRUE, IConj(x)>>
+         [] ev.op \in {"dagger", "H"} -> <<TRUE, IDagger(x)>>
+         [] ev.op = "squeeze" -> <<TRUE, ISqueeze(x, SqueezeAxes(x, a))>>
+         [] ev.op = "expand_dims" ->
+              LET p == ExpandPos(x, a.axis) IN
+              <<TRUE, IExpand(x, p, IF Has(a, "c") THEN a.c ELSE Zero, ExpandDual(x, p, a))>>
+         [] ev.op = "tensordot" ->
+              LET b == Ins(ev, pre, 2)
+                  ax == TdAxes(a, n, Rank(b))
+              IN IF ~IsArray(b) \/ ~AllExact(b) THEN none
+                 ELSE <<TRUE, IF ResolveMode(a, Len(ax[1])) = "fused" THEN ITensordotFused(x, b, ax[1], ax[2])
+                                                                      ELSE ITensordotBlockwise(x, b, ax[1], ax[2])>>
+         [] ev.op = "matmul" ->
+              LET b == Ins(ev, pre, 2) IN
+              IF ~IsArray(b) \/ ~AllExact(b) THEN none ELSE <<TRUE, ITensordotBlockwise(x, b, <<n>>, <<1>>)>>
+         [] ev.op = "fuse" ->
+              LET g == Groups1(a.groups) IN
+              IF FuseEnabled(x, g) /\ x.blocks # <<>> THEN <<TRUE, IFuseCore(x, g)>> ELSE none
+         [] ev.op = "unfuse" ->
+              LET ax == NormAx(a.axis, n) IN IF IsFused(x.ix[ax]) THEN <<TRUE, IUnfuse(x, ax)>> ELSE none
+         [] OTHER -> none
+     ELSE
+       CASE ev.op = "transpose" -> <<TRUE, IFTranspose(x, PermArg(a, n), ~(Has(a, "phase") /\ a.phase = FALSE))>>
+         [] ev.op = "T" -> <<TRUE, IFTranspose(x, Reversal(n), TRUE)>>
+         [] ev.op = "conj" -> <<TRUE, IFConj(x, ~(Has(a, "phase_permutation") /\ a.phase_permutation = FALSE), Flag(a, "phase_dual"))>>
+         [] ev.op \in {"dagger", "H"} -> <<TRUE, IFDagger(x, Flag(a, "phase_dual"))>>
+         [] ev.op = "phase_flip" -> <<TRUE, IPhaseFlip(x, NormAxes(a.axs, n))>>
+         [] ev.op = "phase_transpose" -> <<TRUE, IF Flag(a, "axes_none") THEN IPhaseTransposeAll(x) ELSE IPhaseTranspose(x, PermArg(a, n))>>
+         [] ev.op = "phase_global" -> <<TRUE, IPhaseGlobal(x)>>
+         [] ev.op = "phase_sector" -> <<TRUE, IPhaseSector(x, a.sector)>>
+         [] ev.op = "phase_sync" -> <<TRUE, IPhaseSync(x)>>
+         [] ev.op = "tensordot" ->
+              LET b == Ins(ev, pre, 2)
+                  ax == TdAxes(a, n, Rank(b))
+              IN IF ~IsArray(b) \/ ~AllExact(b) \/ ~LabelsOK(x.oddpos \o b.oddpos) THEN none
+                 ELSE <<TRUE, IFTensordot(x, b, ax[1], ax[2], ResolveMode(a, Len(ax[1])))>>
+         [] OTHER -> none
+ImplDrift(ev, pre) ==
+  IF ev.outcome = "raise" \/ ev.in = <<>> \/ ev.out = <<>> THEN {}
+  ELSE LET m == ImplOf(ev, pre)
+           r == Outs(ev, 1)
+       IN IF ~m[1] THEN {}
+          ELSE IF IsArray(r) THEN (IF AllExact(r) THEN F(L2Eq(m[2], r), "L2." \o ev.op) ELSE {})
+          ELSE IF IsScalar(r) /\ r.exact
+          THEN F(Rank(m[2]) = 0 /\ r.v = ValAt(Elem(m[2]), <<>>), "L2." \o ev.op \o ".scalar")
+          ELSE {}
+
 ---------------------------------------------------------------------------
 OpFails(ev, pre) ==
   IF ev.op \in {"group_pairs", "group_assoc", "sectors"} THEN TableFails(ev)
@@ -984,6 +1055,8 @@ EventFails(ev, pre) ==
 
 EventDrift(ev, pre) ==
   IF ev.op \in {"group_pairs", "group_assoc", "sectors"} THEN TableDrift(ev)
-  ELSE IF ev.op = "threads_run" THEN ThreadsDrift(ev) ELSE {}
+  ELSE IF ev.op = "threads_run" THEN ThreadsDrift(ev)
+  ELSE IF ev.op \in {"rel", "init", "observe", "op_apply", "make_state"} THEN {}
+  ELSE ImplDrift(ev, pre)
 
 =============================================================================
